@@ -383,7 +383,7 @@ Proof. intros H E. rewrite Forall_forall in H. apply H. eapply nth_error_In; eau
 
 Lemma m2m_hstep_ok h hop : Forall M2mInv h -> Forall M2mInv (fst (m2m_hstep h hop)).
 Proof.
-  intro H. destruct hop as [kvs|i s|i s op|i s j t]; simpl.
+  intro H. destruct hop as [kvs|i s|i s op|i s j t|i s j t]; simpl.
   - apply Forall_app. split; trivial. constructor; [|constructor].
     apply m_update_pairs_ok, m_empty_ok.
   - destruct (nth_error h i) as [o|] eqn:E; simpl; trivial.
@@ -397,6 +397,7 @@ Proof.
     apply Forall_set_nth'; trivial. apply M2mInv_side. apply m_update_from_ok; apply M2mInv_side.
     + eapply Forall_nth_error'; eauto.
     + eapply Forall_nth_error'; eauto.
+  - destruct (nth_error h i); simpl; trivial. destruct (nth_error h j); simpl; trivial.
 Qed.
 
 Definition m2m_run (hops : list m2m_hop) : list m2m :=
